@@ -321,7 +321,9 @@ func specParse(n *Node, cfg SpecCfg, in any, dst reflect.Value, path string, loc
 			switch {
 			case n.Def != nil:
 				for _, e := range n.Def.L {
-					elems = append(elems, reflect.ValueOf(e.Go()).Convert(dst.Type().Elem()).Interface())
+					ev := reflect.New(dst.Type().Elem()).Elem()
+					SetFromVal(ev, e) // default elements are values of the element type (possibly slices themselves)
+					elems = append(elems, ev.Interface())
 				}
 			case n.Req:
 				out.cur, out.curIdx = n, -1
@@ -423,6 +425,43 @@ func specParse(n *Node, cfg SpecCfg, in any, dst reflect.Value, path string, loc
 			}
 			out.cur, out.curIdx = n, 999
 			out.add(p, ts.Opts.Code, "custom")
+		}
+	case n.Kind == KPre:
+		// Preprocess: the function sees the raw input before any absent rule; a
+		// type mismatch or an error becomes an issue and the wrapped schema is skipped
+		dtype := n.Elem.ZType()
+		if n.PreFn == "any" {
+			if in == nil {
+				out.cur, out.curIdx = n, -2
+				out.add(path, "coerce", dtype)
+				return
+			}
+			specParse(n.Elem, cfg, in, dst, path, loc, out)
+			return
+		}
+		s, ok := in.(string)
+		if !ok {
+			out.cur, out.curIdx = n, -2
+			out.add(path, "coerce", dtype)
+			return
+		}
+		switch n.PreFn {
+		case "trim":
+			specParse(n.Elem, cfg, strings.TrimSpace(s), dst, path, loc, out)
+		case "split":
+			specParse(n.Elem, cfg, strings.Split(s, ","), dst, path, loc, out)
+		case "error":
+			out.cur, out.curIdx = n, -3
+			out.add(path, "", dtype)
+		case "maybe":
+			if strings.Contains(s, "bad") {
+				out.cur, out.curIdx = n, -3
+				out.add(path, "", dtype)
+				return
+			}
+			specParse(n.Elem, cfg, s, dst, path, loc, out)
+		default:
+			out.unknown("preprocess function %s", n.PreFn)
 		}
 	default:
 		out.unknown("node kind %s is outside the generic specification", n.Kind)
